@@ -16,13 +16,13 @@ from ..fmutil import T, ad, err_class, fm, scalar, us
 
 MODULES = ["Output", "OutputLemmas"]
 GEN_OBLIGATIONS = ["caching_push_based", "push_based_adapters_are_caching", "passthrough_flags", "slot_flags"]
-KINDS = ["direct", "scale", "prev", "next", "scale_prev", "prev_scale", "scale_shared"]
+KINDS = ["direct", "scale", "prev", "next", "scale_prev", "prev_scale", "scale_shared", "callback"]
 PUSH_BASED = {"prev", "next", "scale_prev", "prev_scale"}
 
 
 def gen_case(rng, max_events=40):
     n = rng.choice([1, 1, 2, 2, 2, 3, 3, 4])
-    eps = [rng.choices(KINDS, weights=[36, 16, 10, 8, 8, 8, 14])[0] for _ in range(n)]
+    eps = [rng.choices(KINDS, weights=[36, 16, 10, 8, 8, 8, 14, 9])[0] for _ in range(n)]
     scale = rng.choice([1, 1, 2, 1000, 3_600_000_000, 86_400_000_000])
     gaps = rng.choice([[1, 2, 3], [2, 4, 6, 10], [1, 5, 7, 20], [3]])
     t = rng.randrange(0, 5) * scale
@@ -66,6 +66,9 @@ def build(case):
     shared = None
     for i, kind in enumerate(case["endpoints"]):
         inp = fm.Input(name=f"in{i}", info=fm.Info(time=None, grid=None, units=None))
+        if kind == "callback":
+            # an input that is notified of publications but pulls on its own schedule (later, older times)
+            inp = fm.CallbackInput(callback=lambda caller, time: None, name=f"in{i}", info=fm.Info(time=None, grid=None, units=None))
         if kind == "scale_shared" and shared is not None:
             # a second (third, ...) input behind the same pass-through adapter object: the adapter branches
             shared >> inp
@@ -75,6 +78,7 @@ def build(case):
             continue
         chain = {
             "direct": [],
+            "callback": [],
             "scale_shared": [ad.Scale(1.0)],
             "scale": [ad.Scale(1.0)],
             "prev": [ad.PreviousTime()],
